@@ -175,6 +175,14 @@ func derive(in In) expect {
 	default:
 		return expect{}
 	}
+	if in.Doc.CRLF {
+		// CR LF line ends are not dpkg format; what is pinned: an error, or every entry with byte-exact fields
+		if in.Damage != "" && in.Damage != "no-final-newline" {
+			return expect{}
+		}
+		ex.mustSucceed = false
+		ex.features = append(ex.features, "crlf-line-ends")
+	}
 	if ex.text != "" && !strings.HasSuffix(ex.text, "\n") {
 		ex.features = append(ex.features, "no-final-newline")
 	}
@@ -233,7 +241,7 @@ func parse(in In, text string) (entries []changelog.ChangelogEntry, err error, p
 }
 
 // diffEntry compares a parsed entry with the model; it returns the clause of the first differing field.
-func diffEntry(got changelog.ChangelogEntry, m Entry) (clause, want, have string) {
+func diffEntry(got changelog.ChangelogEntry, m Entry, crlf bool) (clause, want, have string) {
 	if got.Source != m.Source {
 		return "source-as-written", m.Source, got.Source
 	}
@@ -251,8 +259,12 @@ func diffEntry(got changelog.ChangelogEntry, m Entry) (clause, want, have string
 	if !reflect.DeepEqual(got.Arguments, wa) {
 		return "options-as-written", fmt.Sprint(wa), fmt.Sprint(got.Arguments)
 	}
-	if got.Changelog != m.changeText() {
-		return "change-text-verbatim", fmt.Sprintf("%q", m.changeText()), fmt.Sprintf("%q", got.Changelog)
+	ct := m.changeText()
+	if crlf {
+		ct = strings.Replace(ct, "\n", "\r\n", -1)
+	}
+	if got.Changelog != ct {
+		return "change-text-verbatim", fmt.Sprintf("%q", ct), fmt.Sprintf("%q", got.Changelog)
 	}
 	if got.ChangedBy != m.Maint {
 		return "maintainer-as-written", m.Maint, got.ChangedBy
@@ -322,7 +334,7 @@ func check(scen string, in In) (*mc.Violation, string) {
 		if !ex.mustEqual[i] {
 			continue
 		}
-		if clause, want, have := diffEntry(e, in.Doc.Entries[i]); clause != "" {
+		if clause, want, have := diffEntry(e, in.Doc.Entries[i], in.Doc.CRLF); clause != "" {
 			return vt(ex.text, scen, clause, in, fmt.Sprintf("entry %d: %s", i, want), have, ex.features...), kind + "/unfaithful-entry"
 		}
 	}
@@ -568,10 +580,16 @@ func Run(r *mc.Run) {
 			full(base.body, 2, 2, base.source, nVersion, base.dists, base.opts, len(altOptSep), base.maint, base.date), false)
 	}
 
-	// alphabet audit: whole changelogs with entry counts around a new integer constant, and every audited attribute
-	// alternative at every position of a three-entry changelog; all APIs and deliveries, final newline present/absent.
-	if len(auditNote) > 0 {
+	// extended alternatives (byte classes, and whatever the alphabet audit added): every one at every position of a
+	// three-entry changelog; whole changelogs with entry counts around a new integer constant (audit); the fixed
+	// changelogs and three one-entry changelogs with CR LF line ends. All APIs and deliveries, final newline present/absent.
+	{
 		docs := append([]Doc(nil), auditDocs...)
+		for i, d := range append(fixedDocs(), mkDoc([]Pick{{}}, 0, nil, 0), mkDoc([]Pick{{Body: 4, Opts: 1}}, 0, nil, 0), mkDoc([]Pick{{Body: base.body, Maint: base.maint}}, 1, nil, 1)) {
+			_ = i
+			d.CRLF = true
+			docs = append(docs, d)
+		}
 		type slot struct {
 			name string
 			from int
@@ -594,13 +612,14 @@ func Run(r *mc.Run) {
 				}
 			}
 		}
-		r.Scenario("audit-changelogs", map[string]interface{}{"changelogs": len(docs), "what": auditNote["added"]}, len(docs),
+		r.Scenario("extended-alternatives", map[string]interface{}{"changelogs": len(docs), "byte_classes": "invalid UTF-8 (f6 fc ff, lone c3, truncated e6 97), valid 2/3/4-byte characters, characters ending in a0 / 85 at the end of a line / value / list, NUL, CR inside a line - in change text, maintainer name and address, option values, distribution list",
+			"crlf": "9 changelogs with CR LF line ends: an error, or all entries with byte-exact fields (change text keeps its CR LF)", "audit_added": auditNote["added"]}, len(docs),
 			func(i int, st *mc.Stats) bool {
 				for _, a := range apis {
 					for _, del := range deliveries(a) {
 						for _, dmg := range []string{"", "no-final-newline"} {
 							st.Nontrivial++
-							record(st, "audit-changelogs", In{Doc: docs[i], API: a, Delivery: del, Damage: dmg}, i == len(docs)/2 && a == "Parse" && del == "whole" && dmg == "")
+							record(st, "extended-alternatives", In{Doc: docs[i], API: a, Delivery: del, Damage: dmg}, i == len(docs)/2 && a == "Parse" && del == "whole" && dmg == "")
 						}
 					}
 				}
@@ -696,7 +715,7 @@ func fileEntryScenario(r *mc.Run) {
 		rule   string
 	}
 	var jobs []job
-	docs := append(fixedDocs(), mkDoc([]Pick{{}}, 0, nil, 0), mkDoc([]Pick{{Body: 4, Maint: 2, Date: 4, Opts: 3}}, 1, nil, 1), mkDoc([]Pick{{Body: 11, Dists: 2, Version: 3}}, 0, nil, 2))
+	docs := append(fixedDocs(), mkDoc([]Pick{{}}, 0, nil, 0), mkDoc([]Pick{{Body: 4, Maint: 2, Date: 4, Opts: 3}}, 1, nil, 1), mkDoc([]Pick{{Body: 11, Dists: 2, Version: 3}}, 0, nil, 2), mkDoc([]Pick{{Body: base.body, Maint: base.maint, Opts: base.opts, Dists: base.dists}, {Body: base.body + 1, Maint: base.maint + 1}}, 0, []int{1}, 0))
 	for _, d := range docs {
 		jobs = append(jobs, job{d, "", 0, ""}, job{d, "no-final-newline", 0, ""})
 		text, lay := d.Render()
@@ -742,7 +761,7 @@ func fileEntryScenario(r *mc.Run) {
 		}
 	}
 	r.Scenario("file-entry-points", map[string]interface{}{"entry_points": entryPoints, "functions": "ParseFile (API Parse), ParseFileOne (API ParseOne: first entry)",
-		"inputs": len(jobs), "slice": "9 changelogs (1..3 entries): intact, final newline absent, 13 truncation points per entry, first and last occurrence of each substitution",
+		"inputs": len(jobs), "slice": "10 changelogs (1..3 entries, one with the byte classes): intact, final newline absent, 13 truncation points per entry, first and last occurrence of each substitution",
 		"file_kinds": "regular file (also empty: prefix 0), symlink to it, named pipe fed by a goroutine, directory, missing", "oracle": "the property's clauses, and the same outcome as Parse / ParseOne through a reader on the same bytes; missing file / directory: error and no entries"}, len(jobs),
 		func(i int, st *mc.Stats) bool {
 			j := jobs[i]
